@@ -138,6 +138,9 @@ pub fn grammar(max_n: usize) -> Grammar {
         leaves.push(Stmt::Render { name: Expr::var(v), form: RenderForm::Plain, args: vec![] });
     }
     leaves.push(Stmt::Render { name: Expr::s("p_probe"), form: RenderForm::For(Src::Expr(Expr::var("nothing")), "x".into()), args: vec![] });
+    // one tag instance, a different partial name at every execution (and per data object)
+    leaves.push(for_("pv", Src::Expr(Expr::var("names")), vec![Stmt::Render { name: Expr::var("pv"), form: RenderForm::Plain, args: vec![("x".into(), Expr::var("pv"))] }]));
+    leaves.push(for_("pv", Src::Expr(Expr::var("names")), vec![Stmt::Include { name: Expr::var("pv"), args: vec![] }]));
     leaves.push(Stmt::Assign("x".into(), Expr::s("?")));
     leaves.push(Stmt::Assign("y".into(), Expr::s("?")));
     leaves.push(Stmt::Incr("c".into()));
@@ -165,7 +168,10 @@ pub fn datas() -> Vec<V> {
         v.extend(extra);
         V::obj(&v)
     };
-    vec![common(vec![("y", V::s("dy"))]), common(vec![("x", V::s("dx")), ("y", V::s("dy"))])]
+    vec![
+        common(vec![("y", V::s("dy")), ("names", V::Arr(vec![V::s("p_probe"), V::s("p_cycle"), V::s("p_probe")]))]),
+        common(vec![("x", V::s("dx")), ("y", V::s("dy")), ("names", V::Arr(vec![V::s("p_cycle"), V::s("p_forloop"), V::s("missing")]))]),
+    ]
 }
 
 pub fn build_program(g: &Grammar, idx: u64, max_n: usize) -> (Vec<Stmt>, String) {
